@@ -46,9 +46,10 @@ pub fn run(a: &HashMap<String, String>) -> Value {
         .iter()
         .zip(inst.iter())
         .map(|(c, i)| match MockProver::run(k, c, i.clone()) {
-            Ok(p) => match p.verify() {
-                Ok(()) => "Ok(())".to_string(),
-                Err(e) => format!("Err({}): {}", e.len(), e.iter().map(|f| format!("{f:?}").chars().take(160).collect::<String>()).collect::<Vec<_>>().join(" | ")),
+            Ok(p) => match std::panic::catch_unwind(std::panic::AssertUnwindSafe(|| p.verify())) {
+                Ok(Ok(())) => "Ok(())".to_string(),
+                Ok(Err(e)) => format!("Err({}): {}", e.len(), e.iter().map(|f| format!("{f:?}").chars().take(160).collect::<String>()).collect::<Vec<_>>().join(" | ")),
+                Err(_) => "Err(panic): MockProver::verify panicked while reporting a failure".to_string(),
             },
             Err(e) => format!("run error {e:?}"),
         })
